@@ -258,11 +258,20 @@ async fn capacity_async(ctx: &mut Ctx) {
         w.add_node(c).await;
     }
     // sequential exchanges (each completes before the next starts), so "recently used" is unambiguous
-    let nx = np + ctx.tape.choose(8) as usize;
+    // any order with revisits at any fill level of the cache (also while it is still below capacity);
+    // peers that never got their turn are appended so that everyone has a session at some point
+    let nx = np + ctx.tape.choose(10) as usize;
+    let mut seq: Vec<usize> = (0..nx).map(|_| 1 + ctx.tape.choose(np as u32) as usize).collect();
+    for p in 1..=np {
+        if !seq.contains(&p) {
+            seq.push(p);
+        }
+    }
+    let nx = seq.len();
     let mut order: Vec<usize> = vec![];
     let mut at = 0u64;
     for k in 0..nx {
-        let peer = if k < np { 1 + k } else { 1 + ctx.tape.choose(np as u32) as usize };
+        let peer = seq[k];
         let inbound = ctx.tape.choose(3) == 0;
         let (node, p) = if inbound { (peer, 0) } else { (0, peer) };
         w.schedule(at, Ev::Custom(X::Submit { node, peer: p }));
